@@ -51,16 +51,18 @@ package tbtc
 //@   ensures result == nil ==> ghost.now >= blockHeight || ctx in ghost.ctxDone
 
 //@ func dkgResultSubmitter.SubmitResult
-//@   property C47
+//@   property C47 C13
+//@   assert call:DistributedKeyGenerationChain.SubmitDKGResult : [submits-only-with-a-quorum-of-signatures] len(signatures) >= drs.groupParameters.GroupQuorum
 //@   requires memberIndex >= 1
 //@   requires !ghost.observedNotAwaiting
 //@   modifies ghost.now, ghost.ctxDone, ghost.observedNotAwaiting, ghost.refBlock
 //@   assert call:DistributedKeyGenerationChain.SubmitDKGResult : ghost.now >= ghost.refBlock + (memberIndex - 1) * dkgResultSubmissionDelayStepBlocks
 
 //@ func inactivityClaimSubmitter.SubmitClaim
-//@   property C47
+//@   property C47 C13
+//@   assert call:InactivityClaimChain.SubmitInactivityClaim : [submits-only-with-the-honest-threshold-of-signatures] len(signatures) >= ics.groupParameters.HonestThreshold
 //@   requires memberIndex >= 1 && claim != nil && claim.Nonce != nil
-//@   modifies ghost.now, ghost.ctxDone, ghost.chainNonce, ghost.refBlock, alloc
+//@   modifies ghost.now, ghost.ctxDone, ghost.chainNonce, ghost.refBlock, ghost.obsWallet, alloc
 //@   assert call:InactivityClaimChain.SubmitInactivityClaim : ghost.now >= ghost.refBlock + (memberIndex - 1) * inactivityClaimSubmissionDelayStepBlocks
 
 // --- result approval slots (tbtc/dkg.go) ---
@@ -161,7 +163,8 @@ package tbtc
 //@   loop 1 invariant (exists j int :: 0 <= j && j < i && w.signingGroupOperators[j] == operator) ==> len(members) >= 1
 
 //@ func coordinationExecutor.executeFollowerRoutine
-//@   property C24
+//@   property C24 C12
+//@   requires ce.membershipValidator != nil
 //@   requires len(ce.coordinatedWallet.signingGroupOperators) <= 255
 //@   requires exists i int :: 0 <= i && i < len(ce.coordinatedWallet.signingGroupOperators) && ce.coordinatedWallet.signingGroupOperators[i] == leader
 //@   modifies ghost.lastMsg, ghost.ctxDone, alloc
@@ -282,6 +285,7 @@ package tbtc
 //@   ensures result != nil && !old(allocated(result))
 //@ func depositSweepAction.execute
 //@   property C46
+//@   modifies ghost.obsConfirmed, ghost.obsMempool, ghost.obsWallet, ghost.obsConfirmedOK
 //@   assert call:walletTransactionExecutor.signTransaction : [signing-starts-no-earlier-than-action-start] arg2 >= dsa.proposalProcessingStartBlock
 //@   assert call:walletTransactionExecutor.signTransaction : [signing-ends-margin-before-expiry] arg3 + depositSweepSigningTimeoutSafetyMarginBlocks == dsa.proposalExpiryBlock
 //@   assert call:walletTransactionExecutor.signTransaction : [room-for-one-retry-loop] arg3 >= arg2 + signingAttemptsLimit * signingAttemptMaximumBlocks()
@@ -306,6 +310,7 @@ package tbtc
 //@   ensures result != nil && !old(allocated(result))
 //@ func redemptionAction.execute
 //@   property C46
+//@   modifies ghost.obsConfirmed, ghost.obsMempool, ghost.obsWallet, ghost.obsConfirmedOK
 //@   assert call:walletTransactionExecutor.signTransaction : [signing-starts-no-earlier-than-action-start] arg2 >= ra.proposalProcessingStartBlock
 //@   assert call:walletTransactionExecutor.signTransaction : [signing-ends-margin-before-expiry] arg3 + redemptionSigningTimeoutSafetyMarginBlocks == ra.proposalExpiryBlock
 //@   assert call:walletTransactionExecutor.signTransaction : [room-for-one-retry-loop] arg3 >= arg2 + signingAttemptsLimit * signingAttemptMaximumBlocks()
@@ -330,6 +335,7 @@ package tbtc
 //@   ensures result != nil && !old(allocated(result))
 //@ func movingFundsAction.execute
 //@   property C46
+//@   modifies ghost.obsConfirmed, ghost.obsMempool, ghost.obsWallet, ghost.obsConfirmedOK
 //@   assert call:walletTransactionExecutor.signTransaction : [signing-starts-no-earlier-than-action-start] arg2 >= mfa.proposalProcessingStartBlock
 //@   assert call:walletTransactionExecutor.signTransaction : [signing-ends-margin-before-expiry] arg3 + movingFundsSigningTimeoutSafetyMarginBlocks == mfa.proposalExpiryBlock
 //@   assert call:walletTransactionExecutor.signTransaction : [room-for-one-retry-loop] arg3 >= arg2 + signingAttemptsLimit * signingAttemptMaximumBlocks()
@@ -354,6 +360,7 @@ package tbtc
 //@   ensures result != nil && !old(allocated(result))
 //@ func movedFundsSweepAction.execute
 //@   property C46
+//@   modifies ghost.obsConfirmed, ghost.obsMempool, ghost.obsWallet, ghost.obsConfirmedOK
 //@   assert call:walletTransactionExecutor.signTransaction : [signing-starts-no-earlier-than-action-start] arg2 >= mfsa.proposalProcessingStartBlock
 //@   assert call:walletTransactionExecutor.signTransaction : [signing-ends-margin-before-expiry] arg3 + movedFundsSweepSigningTimeoutSafetyMarginBlocks == mfsa.proposalExpiryBlock
 //@   assert call:walletTransactionExecutor.signTransaction : [room-for-one-retry-loop] arg3 >= arg2 + signingAttemptsLimit * signingAttemptMaximumBlocks()
@@ -539,9 +546,9 @@ package tbtc
 //@   monitor doneSignersMutex forall id group.MemberIndex :: (id in self.doneSigners) ==> (self.doneSigners[id] != nil && self.doneSigners[id].senderID == id && (exists i int :: 0 <= i && i < len(ghost.doneMembers) && ghost.doneMembers[i] == id) && bigval(self.doneSigners[id].message) == ghost.doneMessage && self.doneSigners[id].attemptNumber == ghost.doneAttempt && self.doneSigners[id].endBlock <= ghost.doneTimeout && self.doneSigners[id].signature != nil)
 
 //@ func signingDoneCheck.isValidDoneMessage
-//@   property C35
+//@   property C35 C12
 //@   opt unguarded-read doneSigners
-//@   requires doneMessage != nil && message != nil
+//@   requires doneMessage != nil && message != nil && sdc.membershipValidator != nil
 //@   ensures [accepts-only-attempt-members] result ==> (exists i int :: 0 <= i && i < len(attemptMembersIndexes) && attemptMembersIndexes[i] == doneMessage.senderID)
 //@   ensures [accepts-only-valid-membership] result ==> @validMembership(sdc.membershipValidator, doneMessage.senderID, senderPublicKey)
 //@   ensures [accepts-only-this-message-and-attempt] result ==> bigval(doneMessage.message) == bigval(message) && doneMessage.attemptNumber == attemptNumber
@@ -552,12 +559,13 @@ package tbtc
 //@   property C35
 //@   opt unguarded-write doneSigners
 //@   opt noframe 1
-//@   requires message != nil
+//@   requires message != nil && sdc.membershipValidator != nil
 //@   binds ghost.doneMembers = attemptMembersIndexes
 //@   binds ghost.doneMessage = bigval(message)
 //@   binds ghost.doneAttempt = attemptNumber
 //@   binds ghost.doneTimeout = attemptTimeoutBlock
 //@   lit 2
+//@     requires sdc.membershipValidator != nil
 //@     requires message != nil && attemptMembersIndexes == ghost.doneMembers && bigval(message) == ghost.doneMessage && attemptNumber == ghost.doneAttempt && attemptTimeoutBlock == ghost.doneTimeout
 //@     opt noframe 1
 
@@ -759,3 +767,97 @@ package tbtc
 //@   loop 1 invariant forall t int :: 0 <= t && t+1 < len(excludedMembersIndexes) ==> excludedMembersIndexes[t] < excludedMembersIndexes[t+1]
 //@   loop 1 invariant forall i int :: { @seatOf(i) } 0 <= i && i < rangeidx1 && (forall k int :: 0 <= k && k < len(readyMembersIndexes) ==> int(readyMembersIndexes[k]) != @seatOf(i)) ==> (exists t int :: 0 <= t && t < len(excludedMembersIndexes) && int(excludedMembersIndexes[t]) == @seatOf(i))
 //@   loop 1 invariant drl.attemptCounter == 1 ==> (forall t int :: 0 <= t && t < len(excludedMembersIndexes) ==> !(exists k int :: 0 <= k && k < len(readyMembersIndexes) && readyMembersIndexes[k] == excludedMembersIndexes[t]))
+
+// ---------------------------------------------------------------------------
+// C34: main UTXO lookup and chain-sync check.
+// ---------------------------------------------------------------------------
+
+//@ spec func isDepositAt(c ref, h bitcoin.Hash, idx int) bool
+//@ spec func isMovedReqAt(c ref, h bitcoin.Hash, idx int) bool
+//@ assume func BridgeChain.GetDepositRequest
+//@   ensures err == nil ==> result1 == @isDepositAt(recv, arg0, arg1)
+//@ assume func BridgeChain.GetMovedFundsSweepRequest
+//@   ensures err == nil ==> result1 == @isMovedReqAt(recv, arg0, arg1)
+
+//@ spec func ownSweepOutput(b ref, c ref, u *bitcoin.UnspentTransactionOutput) bool
+//@ axiom ownSweepOutput-def: forall b ref, c ref, u *bitcoin.UnspentTransactionOutput :: { @ownSweepOutput(b, c, u) } @ownSweepOutput(b, c, u) <==> (u.Outpoint.OutputIndex == 0 && (@isDepositAt(b, @txOf(c, u.Outpoint.TransactionHash).Inputs[0].Outpoint.TransactionHash, int(@txOf(c, u.Outpoint.TransactionHash).Inputs[0].Outpoint.OutputIndex)) || @isMovedReqAt(b, @txOf(c, u.Outpoint.TransactionHash).Inputs[0].Outpoint.TransactionHash, int(@txOf(c, u.Outpoint.TransactionHash).Inputs[0].Outpoint.OutputIndex))))
+
+//@ func EnsureWalletSyncedBetweenChains
+//@   property C34
+//@   opt noframe 1
+//@   requires walletMainUtxo != nil ==> walletMainUtxo.Outpoint != nil
+//@   modifies ghost.obsConfirmed, ghost.obsMempool, ghost.obsConfirmedOK
+//@   ensures [registered-main-utxo-passes-whenever-still-unspent] walletMainUtxo != nil && ghost.obsConfirmedOK && (exists i int :: 0 <= i && i < len(ghost.obsConfirmed) && ghost.obsConfirmed[i].Outpoint.TransactionHash == walletMainUtxo.Outpoint.TransactionHash && ghost.obsConfirmed[i].Outpoint.OutputIndex == walletMainUtxo.Outpoint.OutputIndex && ghost.obsConfirmed[i].Value == walletMainUtxo.Value) ==> result == nil
+//@   ensures [registered-main-utxo-passes-only-when-still-unspent] walletMainUtxo != nil && result == nil ==> (exists i int :: 0 <= i && i < len(ghost.obsConfirmed) && ghost.obsConfirmed[i].Outpoint.TransactionHash == walletMainUtxo.Outpoint.TransactionHash && ghost.obsConfirmed[i].Outpoint.OutputIndex == walletMainUtxo.Outpoint.OutputIndex && ghost.obsConfirmed[i].Value == walletMainUtxo.Value)
+//@   ensures [fresh-wallet-passes-only-without-own-sweep-outputs-confirmed] walletMainUtxo == nil && result == nil ==> (forall i int :: 0 <= i && i < len(ghost.obsConfirmed) ==> !@ownSweepOutput(bridgeChain, btcChain, ghost.obsConfirmed[i]))
+//@   ensures [fresh-wallet-passes-only-without-own-sweep-outputs-mempool] walletMainUtxo == nil && result == nil ==> (forall i int :: 0 <= i && i < len(ghost.obsMempool) ==> !@ownSweepOutput(bridgeChain, btcChain, ghost.obsMempool[i]))
+//@   loop 1 invariant i >= -1 && i < len(confirmedUtxos)
+//@   loop 1 invariant forall k int :: i < k && k < len(confirmedUtxos) ==> !(confirmedUtxos[k].Outpoint.TransactionHash == walletMainUtxo.Outpoint.TransactionHash && confirmedUtxos[k].Outpoint.OutputIndex == walletMainUtxo.Outpoint.OutputIndex && confirmedUtxos[k].Value == walletMainUtxo.Value)
+//@   loop 2 invariant forall k int :: 0 <= k && k < rangeidx2 ==> !@ownSweepOutput(bridgeChain, btcChain, allUtxos[k])
+
+// Main UTXO lookup. obsWallet is the on-chain wallet record observed by the
+// lookup; utxoHashOf is the Bridge's main UTXO hash as a function of
+// (transaction hash, output index, value).
+//@ ghost obsWallet *WalletChainData
+//@ spec func utxoHashOf(c ref, h bitcoin.Hash, idx int, value int) [32]byte
+//@ assume func BridgeChain.GetWallet
+//@   modifies ghost.obsWallet
+//@   ensures err == nil ==> result0 != nil && ghost.obsWallet == result0
+//@ assume func BridgeChain.ComputeMainUtxoHash
+//@   ensures arg0 != nil && arg0.Outpoint != nil ==> result == @utxoHashOf(recv, arg0.Outpoint.TransactionHash, int(arg0.Outpoint.OutputIndex), arg0.Value)
+
+//@ func DetermineWalletMainUtxo
+//@   property C34
+//@   opt noframe 1
+//@   modifies ghost.obsWallet
+//@   ensures [none-only-when-nothing-is-registered] err == nil && result0 == nil ==> (forall i int :: 0 <= i && i < 32 ==> ghost.obsWallet.MainUtxoHash[i] == 0)
+//@   ensures [found-utxo-hashes-to-the-registered-hash] result0 != nil ==> err == nil && result0.Outpoint != nil && @utxoHashOf(bridgeChain, result0.Outpoint.TransactionHash, int(result0.Outpoint.OutputIndex), result0.Value) == ghost.obsWallet.MainUtxoHash
+//@   ensures [error-yields-no-utxo] err != nil ==> result0 == nil
+//@   assert call:BridgeChain.ComputeMainUtxoHash : [candidate-is-built-from-the-output] arg0 != nil && arg0.Outpoint != nil && int(arg0.Outpoint.OutputIndex) == outputIndex && arg0.Value == output.Value
+//@   assert call:BridgeChain.ComputeMainUtxoHash : [candidate-pays-the-wallet] bytesEqual(output.PublicKeyScript, walletP2PKH) || bytesEqual(output.PublicKeyScript, walletP2WPKH)
+//@   assert call:BridgeChain.ComputeMainUtxoHash : [candidate-comes-from-the-wallet-history] transaction == @txOf(btcChain, txHashes[i]) && 0 <= i && i < len(txHashes) && 0 <= outputIndex && outputIndex < len(transaction.Outputs) && output == transaction.Outputs[outputIndex]
+//@   loop 1 invariant i >= -1 && i < len(txHashes)
+
+// >>> generated by tools/gen_unmarshal_contracts.py (do not edit by hand)
+// C19 safety sweep: decoding any byte string returns an error or a value, and never panics.
+//@ func signer.Unmarshal
+//@   property C19
+//@   opt noframe 1
+//@   opt safe index slice div nil typeassert
+//@   requires s != nil
+//@ func signingDoneMessage.Unmarshal
+//@   property C19
+//@   opt noframe 1
+//@   opt safe index slice div nil typeassert
+//@   requires sdm != nil
+//@ func coordinationMessage.Unmarshal
+//@   property C19
+//@   opt noframe 1
+//@   opt safe index slice div nil typeassert
+//@   requires cm != nil
+//@ func HeartbeatProposal.Unmarshal
+//@   property C19
+//@   opt noframe 1
+//@   opt safe index slice div nil typeassert
+//@   requires hp != nil
+//@ func DepositSweepProposal.Unmarshal
+//@   property C19
+//@   opt noframe 1
+//@   opt safe index slice div nil typeassert
+//@   requires dsp != nil
+//@ func RedemptionProposal.Unmarshal
+//@   property C19
+//@   opt noframe 1
+//@   opt safe index slice div nil typeassert
+//@   requires rp != nil
+//@ func MovingFundsProposal.Unmarshal
+//@   property C19
+//@   opt noframe 1
+//@   opt safe index slice div nil typeassert
+//@   requires mfp != nil
+//@ func MovedFundsSweepProposal.Unmarshal
+//@   property C19
+//@   opt noframe 1
+//@   opt safe index slice div nil typeassert
+//@   requires mfsp != nil
+// <<< generated (unmarshal)
